@@ -12,6 +12,8 @@
 #include <fstream>
 #include <exception>
 #include <unistd.h>
+#include <csignal>
+#include <initializer_list>
 #include <memory>
 
 namespace vh {
@@ -57,7 +59,20 @@ inline void on_terminate() {
   if (Trace::current()) { Trace::current()->emit(Json("Abort")); Trace::current()->flush(); }
   _exit(0);
 }
-inline void install_terminate() { std::set_terminate(on_terminate); }
+// a fatal signal inside the code under test (SIGSEGV, SIGFPE, SIGBUS, SIGABRT from assert/abort) likewise ends the
+// trace with an Abort line naming the signal: no trace specification has a rule for "Abort", so the line is
+// reported as unexplained (VIOLATION attributed to the last recorded operation) instead of a driver failure.
+// Not installed in sanitizer builds (ASan/UBSan have their own handlers and exit codes).
+inline void on_fatal_signal(int sig) {
+  if (Trace::current()) { Trace::current()->emit(Json("Abort").num("sig", sig)); Trace::current()->flush(); }
+  _exit(0);
+}
+inline void install_terminate() {
+  std::set_terminate(on_terminate);
+#if !defined(__SANITIZE_ADDRESS__) && !defined(VH_NO_SIGNAL_HANDLERS)
+  for (int sig : { SIGSEGV, SIGFPE, SIGBUS, SIGABRT, SIGILL }) std::signal(sig, on_fatal_signal);
+#endif
+}
 
 // ---------------------------------------------------------------- deterministic PRNG (splitmix64)
 struct Rng {
